@@ -187,7 +187,7 @@ type optStruct struct {
 	Zero   *optStruct        `json:"zero,omitzero"`
 	D      time.Duration     `json:"d,format:units"`
 	Raw    jsontext.Value    `json:"raw"`
-	X      map[string]any    `json:",unknown"`
+	X      map[string]any    `json:",embed"`
 	Emb    map[int]time.Time `json:"emb,omitempty"`
 }
 
